@@ -282,9 +282,10 @@ func codeNames(codes []uint32) []string {
 // ---- G2: arbitrary bytes ------------------------------------------------------------------------------
 
 type ReadScript struct {
-	Stream []byte `json:"stream"`
-	Limit  uint32 `json:"limit"`
-	Reuse  bool   `json:"reuse,omitempty"` // SetReuseFrames: one DataFrame object is handed out again and again
+	Stream     []byte `json:"stream"`
+	Limit      uint32 `json:"limit"`
+	Reuse      bool   `json:"reuse,omitempty"` // SetReuseFrames: one DataFrame object is handed out again and again
+	TextHeader bool   `json:"text_header,omitempty"`
 }
 
 var colRead = vstat.New("C19", "c19.read")
@@ -308,6 +309,14 @@ func genReadScript(t *rapid.T) ReadScript {
 				s.Stream = append(s.Stream, fr.Continuation(csid, j == k-1 && rapid.Bool().Draw(t, "eh"), []byte{0x84})...)
 			}
 		case 2: // big frame vs the limit
+			if rapid.IntRange(0, 3).Draw(t, "texthdr") == 0 {
+				// nine octets of text where a frame header belongs (a peer that speaks another protocol): as a frame
+				// header they announce megabytes; beyond the read limit that is ErrFrameTooLarge like any other
+				s.Stream = append(s.Stream, []byte(rapid.SampledFrom([]string{"HTTP/1.1 ", "HTTP/1.0 ", "GET / HTT", "PRI * HTT", "SSH-2.0-O"}).Draw(t, "text"))...)
+				s.Stream = append(s.Stream, make([]byte, 64)...)
+				s.TextHeader = true
+				break
+			}
 			l := rapid.SampledFrom([]int{16384, 16385, 20000}).Draw(t, "big")
 			s.Stream = append(s.Stream, fr.Raw(0, 0, 1, make([]byte, l))...)
 		default:
@@ -318,6 +327,9 @@ func genReadScript(t *rapid.T) ReadScript {
 		s.Stream = s.Stream[:rapid.IntRange(0, len(s.Stream)-1).Draw(t, "cut")]
 	}
 	s.Limit = rapid.SampledFrom([]uint32{0, 0, 16384, 16385, 20, 1 << 20}).Draw(t, "limit")
+	if s.TextHeader && s.Limit == 0 {
+		s.Limit = 16384 // (with the default limit of 16 MiB the text would be a truncated, legal frame)
+	}
 	s.Reuse = rapid.IntRange(0, 2).Draw(t, "reuse") == 0
 	return s
 }
@@ -978,11 +990,13 @@ func TestMetaSequence(t *testing.T) {
 var colMetaAny = vstat.New("C19", "c19.meta-read-any-bytes")
 
 type MetaAnyScript struct {
-	Stream []byte `json:"stream"`
+	Stream      []byte `json:"stream"`
+	MaxHdrList  uint32 `json:"max_header_list,omitempty"` // Framer.MaxHeaderListSize (0: default)
+	BigFragment int    `json:"big_fragment,omitempty"`    // >0: one more HEADERS frame whose fragment is this long
 }
 
 func TestMetaReadAnyBytes(t *testing.T) {
-	colMetaAny.Mandatory("header-block-interrupted", "frames-read:3+")
+	colMetaAny.Mandatory("header-block-interrupted", "frames-read:3+", "header-list-far-beyond-the-limit")
 	vstat.Run(t, vstat.Spec[MetaAnyScript]{Col: colMetaAny, Quick: 8000, Thorough: 300000,
 		Gen: func(t *rapid.T) MetaAnyScript {
 			var s MetaAnyScript
@@ -996,6 +1010,11 @@ func TestMetaReadAnyBytes(t *testing.T) {
 					s.Stream = append(s.Stream, framegen.Frame(t)...)
 				}
 			}
+			if rapid.IntRange(0, 3).Draw(t, "smalllimit") == 0 {
+				// a header list limit the block exceeds "by too much" (readMetaFrame gives up on the connection)
+				s.MaxHdrList = rapid.SampledFrom([]uint32{1, 16, 100}).Draw(t, "maxhdr")
+				s.BigFragment = rapid.SampledFrom([]int{300, 2000}).Draw(t, "bigfrag")
+			}
 			return s
 		},
 		Exec: func(s MetaAnyScript) (v *vstat.Violation) {
@@ -1004,8 +1023,20 @@ func TestMetaReadAnyBytes(t *testing.T) {
 					v = vstat.Violf("meta-read|panic", "ReadFrame (ReadMetaHeaders set) panicked on %x: %v", s.Stream, r)
 				}
 			}()
-			f := h2.NewFramer(io.Discard, bytes.NewReader(s.Stream))
+			stream := s.Stream
+			if s.BigFragment > 0 {
+				// literal fields without indexing, new names: "0 1 'a' 1 'b'" repeated
+				var frag []byte
+				for len(frag) < s.BigFragment {
+					frag = append(frag, 0x00, 0x01, 'a', 0x01, 'b')
+				}
+				stream = append(append([]byte{}, fr.Headers(99, frag, true, true, 0, false, 0, false, 0)...), stream...)
+			}
+			f := h2.NewFramer(io.Discard, bytes.NewReader(stream))
 			f.ReadMetaHeaders = hpack.NewDecoder(4096, nil)
+			if s.MaxHdrList > 0 {
+				f.MaxHeaderListSize = s.MaxHdrList
+			}
 			n := 0
 			interrupted := false
 			for k := 0; k < 100; k++ {
@@ -1019,6 +1050,10 @@ func TestMetaReadAnyBytes(t *testing.T) {
 					if errors.As(err, &ce) && h2.ErrCode(ce) == h2.ErrCodeProtocol {
 						interrupted = true
 					}
+					if !errors.As(err, &ce) && err != io.EOF && err != io.ErrUnexpectedEOF && err != h2.ErrFrameTooLarge {
+						// whatever is wrong with the bytes, the caller gets an error it can map to an RFC code
+						return vstat.Violf("meta-read|error-is-not-an-http2-error", "ReadFrame (ReadMetaHeaders set, MaxHeaderListSize %d) returned %T %q: neither a ConnectionError nor a StreamError, so no error code can be sent", s.MaxHdrList, err, err.Error())
+					}
 					break
 				}
 				if fm == nil {
@@ -1027,6 +1062,9 @@ func TestMetaReadAnyBytes(t *testing.T) {
 				n++
 			}
 			cl := []string{}
+			if s.BigFragment > 0 {
+				cl = append(cl, "header-list-far-beyond-the-limit")
+			}
 			if interrupted {
 				cl = append(cl, "header-block-interrupted")
 			}
